@@ -897,6 +897,11 @@ func checkFragment(v string, isRoot bool) bool {
 	return isAlNum(v[len(v)-1])
 }
 
+// isHexDigit checks whether provided char is a hexadecimal digit.
+func isHexDigit(c uint8) bool {
+	return c >= '0' && c <= '9' || c >= 'a' && c <= 'f' || c >= 'A' && c <= 'F'
+}
+
 // isAlNum checks whether provided char is a lowercase letter or a number.
 func isAlNum(c uint8) bool {
 	return c >= 'a' && c <= 'z' || c >= '0' && c <= '9'
@@ -1016,7 +1021,13 @@ func checkIPv6(data string) bool {
 			if len(f) > 4 {
 				return false
 			}
-			n := std.Atoi(f, 16)
+			for j := 0; j < len(f); j++ { //nolint:intrange // Not supported by NeoGo
+				if !isHexDigit(f[j]) {
+					return false
+				}
+			}
+			// Hexadecimal strings are two's complement for Atoi, keep the value non-negative.
+			n := std.Atoi("0"+f, 16)
 			if 65535 < n {
 				panic("fragment overflows uint16: " + f)
 			}
